@@ -61,7 +61,7 @@ mod v_wire_views {
             kani::cover!(r.is_ok() && pl.len() > 0, "ethernet: parsed, non-empty payload");
         }
     }
-    // @harness props=C07,C03 cfg=KW tier=q to=300 mem=4 unwind=4 covers=1 funcs=EthernetFrame::new_checked;EthernetFrame::payload;EthernetRepr::parse bounds=any_bytes_len_0..=20
+    // @harness props=C07,C03:t cfg=KW tier=q to=300 mem=4 unwind=4 covers=1 funcs=EthernetFrame::new_checked;EthernetFrame::payload;EthernetRepr::parse bounds=any_bytes_len_0..=20
     #[kani::proof]
     pub(crate) fn view_ethernet() {
         ethernet_view::<20>();
@@ -86,7 +86,7 @@ mod v_wire_views {
             kani::cover!(r.is_err() && p.hardware_len() > 6, "arp: other hardware length accepted by check_len");
         }
     }
-    // @harness props=C07,C03 cfg=KW tier=q to=300 mem=4 unwind=4 covers=2 funcs=ArpPacket::new_checked;ArpPacket::source_hardware_addr;ArpPacket::target_protocol_addr;ArpRepr::parse bounds=any_bytes_len_0..=40
+    // @harness props=C07,C03:t cfg=KW tier=q to=300 mem=4 unwind=4 covers=2 funcs=ArpPacket::new_checked;ArpPacket::source_hardware_addr;ArpPacket::target_protocol_addr;ArpRepr::parse bounds=any_bytes_len_0..=40
     #[kani::proof]
     pub(crate) fn view_arp() {
         arp_view::<40>();
@@ -121,12 +121,12 @@ mod v_wire_views {
             kani::cover!(r.is_ok() && p.header_len() > 20 && pl.len() > 0, "ipv4: parsed, with options and payload");
         }
     }
-    // @harness props=C07,C03 cfg=KW tier=q to=300 mem=4 unwind=18 covers=1 funcs=Ipv4Packet::new_checked;Ipv4Packet::payload;Ipv4Packet::verify_checksum;Ipv4Repr::parse bounds=any_bytes_len_0..=32
+    // @harness props=C07,C03:t cfg=KW tier=q to=300 mem=4 unwind=18 covers=1 funcs=Ipv4Packet::new_checked;Ipv4Packet::payload;Ipv4Packet::verify_checksum;Ipv4Repr::parse bounds=any_bytes_len_0..=32
     #[kani::proof]
     pub(crate) fn view_ipv4() {
         ipv4_view::<32>();
     }
-    // @harness props=C07,C03 cfg=KW tier=t to=1800 mem=8 unwind=18 covers=1 funcs=Ipv4Packet::new_checked;Ipv4Packet::payload;Ipv4Packet::verify_checksum;Ipv4Repr::parse bounds=any_bytes_len_0..=64_(full_60_byte_header)
+    // @harness props=C07,C03:t cfg=KW tier=t to=1800 mem=8 unwind=18 covers=1 funcs=Ipv4Packet::new_checked;Ipv4Packet::payload;Ipv4Packet::verify_checksum;Ipv4Repr::parse bounds=any_bytes_len_0..=64_(full_60_byte_header)
     #[kani::proof]
     pub(crate) fn view_ipv4_t() {
         ipv4_view::<64>();
@@ -152,19 +152,19 @@ mod v_wire_views {
             kani::cover!(r.is_ok() && pl.len() > 0 && len > p.total_len(), "ipv6: parsed, payload, trailing bytes");
         }
     }
-    // @harness props=C07,C03 cfg=KW tier=q to=300 mem=4 unwind=4 covers=1 funcs=Ipv6Packet::new_checked;Ipv6Packet::payload;Ipv6Repr::parse bounds=any_bytes_len_0..=48
+    // @harness props=C07,C03:t cfg=KW tier=q to=300 mem=4 unwind=4 covers=1 funcs=Ipv6Packet::new_checked;Ipv6Packet::payload;Ipv6Repr::parse bounds=any_bytes_len_0..=48
     #[kani::proof]
     pub(crate) fn view_ipv6() {
         ipv6_view::<48>();
     }
-    // @harness props=C07,C03 cfg=KW tier=t to=900 mem=4 unwind=4 covers=1 funcs=Ipv6Packet::new_checked;Ipv6Packet::payload;Ipv6Repr::parse bounds=any_bytes_len_0..=96
+    // @harness props=C07,C03:t cfg=KW tier=t to=900 mem=4 unwind=4 covers=1 funcs=Ipv6Packet::new_checked;Ipv6Packet::payload;Ipv6Repr::parse bounds=any_bytes_len_0..=96
     #[kani::proof]
     pub(crate) fn view_ipv6_t() {
         ipv6_view::<96>();
     }
 
     // the version-dispatching view used by medium-ip interfaces (crate-internal `wire::ip::Packet`)
-    // @harness props=C07,C03 cfg=KW tier=q to=300 mem=4 unwind=18 covers=2 funcs=wire::ip::Packet::new_checked;wire::ip::Packet::version;IpRepr::parse bounds=any_bytes_len_0..=44
+    // @harness props=C07,C03:t cfg=KW tier=q to=300 mem=4 unwind=18 covers=2 funcs=wire::ip::Packet::new_checked;wire::ip::Packet::version;IpRepr::parse bounds=any_bytes_len_0..=44
     #[kani::proof]
     pub(crate) fn view_ip_generic() {
         const N: usize = 44;
@@ -194,7 +194,7 @@ mod v_wire_views {
             kani::cover!(r.is_ok() && p.header_len() == 1 && pl.len() == 14, "ext header: 16-byte header parsed");
         }
     }
-    // @harness props=C07,C03 cfg=KW tier=q to=300 mem=4 unwind=4 covers=1 funcs=Ipv6ExtHeader::new_checked;Ipv6ExtHeader::payload;Ipv6ExtHeaderRepr::parse bounds=any_bytes_len_0..=24
+    // @harness props=C07,C03:t cfg=KW tier=q to=300 mem=4 unwind=4 covers=1 funcs=Ipv6ExtHeader::new_checked;Ipv6ExtHeader::payload;Ipv6ExtHeaderRepr::parse bounds=any_bytes_len_0..=24
     #[kani::proof]
     pub(crate) fn view_ipv6_ext_header() {
         ipv6_ext_view::<24>();
@@ -216,7 +216,7 @@ mod v_wire_views {
             kani::cover!(matches!(r, Ok(Ipv6OptionRepr::Pad1)) && len == 1, "option: lone Pad1");
         }
     }
-    // @harness props=C07,C03 cfg=KW tier=q to=300 mem=4 unwind=4 covers=2 funcs=Ipv6Option::new_checked;Ipv6Option::data;Ipv6OptionRepr::parse bounds=any_bytes_len_0..=16
+    // @harness props=C07,C03:t cfg=KW tier=q to=300 mem=4 unwind=4 covers=2 funcs=Ipv6Option::new_checked;Ipv6Option::data;Ipv6OptionRepr::parse bounds=any_bytes_len_0..=16
     #[kani::proof]
     pub(crate) fn view_ipv6_option() {
         ipv6_option_view::<16>();
@@ -238,12 +238,12 @@ mod v_wire_views {
         kani::cover!(n >= 1 && failed, "options iterator: error after a good option");
     }
     // every option consumes >= 1 byte, an error ends the iteration: <= N+1 calls of next()
-    // @harness props=C07,C03 cfg=KW tier=q to=600 mem=4 unwind=14 opts=term covers=2 funcs=Ipv6OptionsIterator::next;Ipv6Option::new_checked;Ipv6OptionRepr::parse bounds=any_bytes_len_0..=12
+    // @harness props=C07,C03:t cfg=KW tier=q to=600 mem=4 unwind=14 opts=term covers=2 funcs=Ipv6OptionsIterator::next;Ipv6Option::new_checked;Ipv6OptionRepr::parse bounds=any_bytes_len_0..=12
     #[kani::proof]
     pub(crate) fn view_ipv6_options_iter() {
         ipv6_options_iter_view::<12>();
     }
-    // @harness props=C07,C03 cfg=KW tier=t to=1800 mem=8 unwind=34 opts=term covers=2 funcs=Ipv6OptionsIterator::next;Ipv6Option::new_checked;Ipv6OptionRepr::parse bounds=any_bytes_len_0..=32
+    // @harness props=C07,C03:t cfg=KW tier=t to=1800 mem=8 unwind=34 opts=term covers=2 funcs=Ipv6OptionsIterator::next;Ipv6Option::new_checked;Ipv6OptionRepr::parse bounds=any_bytes_len_0..=32
     #[kani::proof]
     pub(crate) fn view_ipv6_options_iter_t() {
         ipv6_options_iter_view::<32>();
@@ -261,13 +261,13 @@ mod v_wire_views {
         }
     }
     // the Repr keeps at most IPV6_HBH_MAX_OPTIONS = 4 options, the loop ends at the 5th
-    // @harness props=C07,C03 cfg=KW tier=q to=600 mem=4 unwind=8 opts=term covers=2 funcs=Ipv6HopByHopHeader::new_checked;Ipv6HopByHopRepr::parse;Ipv6OptionsIterator::next bounds=any_bytes_len_0..=16
+    // @harness props=C07,C03:t cfg=KW tier=q to=600 mem=4 unwind=8 opts=term covers=2 funcs=Ipv6HopByHopHeader::new_checked;Ipv6HopByHopRepr::parse;Ipv6OptionsIterator::next bounds=any_bytes_len_0..=16
     #[kani::proof]
     pub(crate) fn view_ipv6_hbh() {
         ipv6_hbh_view::<16>();
     }
 
-    // @harness props=C07,C03 cfg=KW tier=q to=300 mem=4 unwind=4 covers=1 funcs=Ipv6FragmentHeader::new_checked;Ipv6FragmentRepr::parse bounds=any_bytes_len_0..=12
+    // @harness props=C07,C03:t cfg=KW tier=q to=300 mem=4 unwind=4 covers=1 funcs=Ipv6FragmentHeader::new_checked;Ipv6FragmentRepr::parse bounds=any_bytes_len_0..=12
     #[kani::proof]
     pub(crate) fn view_ipv6_fragment() {
         const N: usize = 12;
@@ -305,7 +305,7 @@ mod v_wire_views {
             kani::cover!(matches!(r, Ok(Ipv6RoutingRepr::Rpl { addresses, .. }) if addresses.len() > 0), "routing: RPL source route with addresses parsed");
         }
     }
-    // @harness props=C07,C03 cfg=KW tier=q to=300 mem=4 unwind=4 covers=2 funcs=Ipv6RoutingHeader::new_checked;Ipv6RoutingHeader::home_address;Ipv6RoutingHeader::addresses;Ipv6RoutingRepr::parse bounds=any_bytes_len_0..=28
+    // @harness props=C07,C03:t cfg=KW tier=q to=300 mem=4 unwind=4 covers=2 funcs=Ipv6RoutingHeader::new_checked;Ipv6RoutingHeader::home_address;Ipv6RoutingHeader::addresses;Ipv6RoutingRepr::parse bounds=any_bytes_len_0..=28
     #[kani::proof]
     pub(crate) fn view_ipv6_routing() {
         ipv6_routing_view::<28>();
@@ -333,18 +333,18 @@ mod v_wire_views {
             kani::cover!(matches!(r, Ok(Icmpv4Repr::DstUnreachable { .. })), "icmpv4: destination unreachable with embedded IPv4 header parsed");
         }
     }
-    // @harness props=C07,C03 cfg=KW tier=q to=600 mem=4 unwind=4 covers=2 funcs=Icmpv4Packet::new_checked;Icmpv4Packet::data;Icmpv4Repr::parse;Ipv4Packet::new_checked bounds=any_bytes_len_0..=44
+    // @harness props=C07,C03:t cfg=KW tier=q to=600 mem=4 unwind=4 covers=2 funcs=Icmpv4Packet::new_checked;Icmpv4Packet::data;Icmpv4Repr::parse;Ipv4Packet::new_checked bounds=any_bytes_len_0..=44
     #[kani::proof]
     pub(crate) fn view_icmpv4() {
         icmpv4_view::<44>();
     }
-    // @harness props=C07,C03 cfg=KW tier=t to=1800 mem=8 unwind=4 covers=2 funcs=Icmpv4Packet::new_checked;Icmpv4Packet::data;Icmpv4Repr::parse;Ipv4Packet::new_checked bounds=any_bytes_len_0..=80
+    // @harness props=C07,C03:t cfg=KW tier=t to=1800 mem=8 unwind=4 covers=2 funcs=Icmpv4Packet::new_checked;Icmpv4Packet::data;Icmpv4Repr::parse;Ipv4Packet::new_checked bounds=any_bytes_len_0..=80
     #[kani::proof]
     pub(crate) fn view_icmpv4_t() {
         icmpv4_view::<80>();
     }
     // checksum verification path (ChecksumCapabilities::default), smaller buffer
-    // @harness props=C07,C03 cfg=KW tier=q to=600 mem=4 unwind=10 covers=1 funcs=Icmpv4Packet::verify_checksum;Icmpv4Repr::parse bounds=any_bytes_len_0..=24
+    // @harness props=C07,C03:t cfg=KW tier=q to=600 mem=4 unwind=10 covers=1 funcs=Icmpv4Packet::verify_checksum;Icmpv4Repr::parse bounds=any_bytes_len_0..=24
     #[kani::proof]
     pub(crate) fn view_icmpv4_cksum() {
         const N: usize = 24;
@@ -358,7 +358,7 @@ mod v_wire_views {
         }
     }
 
-    // @harness props=C07,C03 cfg=KW tier=q to=300 mem=4 unwind=6 covers=2 funcs=IgmpPacket::new_checked;IgmpPacket::verify_checksum;IgmpRepr::parse bounds=any_bytes_len_0..=12
+    // @harness props=C07,C03:t cfg=KW tier=q to=300 mem=4 unwind=6 covers=2 funcs=IgmpPacket::new_checked;IgmpPacket::verify_checksum;IgmpRepr::parse bounds=any_bytes_len_0..=12
     #[kani::proof]
     pub(crate) fn view_igmp() {
         const N: usize = 12;
@@ -487,63 +487,63 @@ mod v_wire_views {
         v
     }
 
-    // @harness props=C07,C03 cfg=KW tier=q to=900 mem=4 unwind=2 covers=1 funcs=Icmpv6Packet::new_checked;Icmpv6Packet::payload;Icmpv6Repr::parse bounds=type_DstUnreachable;_any_other_bytes_len_0..=56
+    // @harness props=C07,C03:t cfg=KW tier=q to=900 mem=4 unwind=2 covers=1 funcs=Icmpv6Packet::new_checked;Icmpv6Packet::payload;Icmpv6Repr::parse bounds=type_DstUnreachable;_any_other_bytes_len_0..=56
     #[kani::proof]
     pub(crate) fn view_icmpv6_dst_unreachable() {
         let v = icmpv6_view::<56>(0x01);
         kani::cover!(v.parsed && v.data_len == 8, "icmpv6 dst unreachable: embedded IPv6 header + 8 bytes parsed");
     }
-    // @harness props=C07,C03 cfg=KW tier=q to=900 mem=4 unwind=2 covers=1 funcs=Icmpv6Packet::new_checked;Icmpv6Packet::pkt_too_big_mtu;Icmpv6Repr::parse bounds=type_PktTooBig;_any_other_bytes_len_0..=56
+    // @harness props=C07,C03:t cfg=KW tier=q to=900 mem=4 unwind=2 covers=1 funcs=Icmpv6Packet::new_checked;Icmpv6Packet::pkt_too_big_mtu;Icmpv6Repr::parse bounds=type_PktTooBig;_any_other_bytes_len_0..=56
     #[kani::proof]
     pub(crate) fn view_icmpv6_pkt_too_big() {
         let v = icmpv6_view::<56>(0x02);
         kani::cover!(v.parsed && v.data_len == 8, "icmpv6 packet too big: embedded IPv6 header + 8 bytes parsed");
     }
-    // @harness props=C07,C03 cfg=KW tier=q to=900 mem=4 unwind=2 covers=1 funcs=Icmpv6Packet::new_checked;Icmpv6Repr::parse bounds=type_TimeExceeded;_any_other_bytes_len_0..=56
+    // @harness props=C07,C03:t cfg=KW tier=q to=900 mem=4 unwind=2 covers=1 funcs=Icmpv6Packet::new_checked;Icmpv6Repr::parse bounds=type_TimeExceeded;_any_other_bytes_len_0..=56
     #[kani::proof]
     pub(crate) fn view_icmpv6_time_exceeded() {
         let v = icmpv6_view::<56>(0x03);
         kani::cover!(v.parsed && v.data_len == 8, "icmpv6 time exceeded: embedded IPv6 header + 8 bytes parsed");
     }
-    // @harness props=C07,C03 cfg=KW tier=q to=900 mem=4 unwind=2 covers=1 funcs=Icmpv6Packet::new_checked;Icmpv6Packet::param_problem_ptr;Icmpv6Repr::parse bounds=type_ParamProblem;_any_other_bytes_len_0..=56
+    // @harness props=C07,C03:t cfg=KW tier=q to=900 mem=4 unwind=2 covers=1 funcs=Icmpv6Packet::new_checked;Icmpv6Packet::param_problem_ptr;Icmpv6Repr::parse bounds=type_ParamProblem;_any_other_bytes_len_0..=56
     #[kani::proof]
     pub(crate) fn view_icmpv6_param_problem() {
         let v = icmpv6_view::<56>(0x04);
         kani::cover!(v.parsed && v.data_len == 8, "icmpv6 parameter problem: embedded IPv6 header + 8 bytes parsed");
     }
-    // @harness props=C07,C03 cfg=KW tier=q to=900 mem=4 unwind=2 covers=1 funcs=Icmpv6Packet::new_checked;Icmpv6Packet::echo_ident;Icmpv6Packet::echo_seq_no;Icmpv6Repr::parse bounds=type_EchoRequest;_any_other_bytes_len_0..=32
+    // @harness props=C07,C03:t cfg=KW tier=q to=900 mem=4 unwind=2 covers=1 funcs=Icmpv6Packet::new_checked;Icmpv6Packet::echo_ident;Icmpv6Packet::echo_seq_no;Icmpv6Repr::parse bounds=type_EchoRequest;_any_other_bytes_len_0..=32
     #[kani::proof]
     pub(crate) fn view_icmpv6_echo_request() {
         let v = icmpv6_view::<32>(0x80);
         kani::cover!(v.parsed && v.data_len == 24, "icmpv6 echo request with data parsed");
     }
-    // @harness props=C07,C03 cfg=KW tier=q to=900 mem=4 unwind=2 covers=1 funcs=Icmpv6Packet::new_checked;Icmpv6Packet::echo_ident;Icmpv6Packet::echo_seq_no;Icmpv6Repr::parse bounds=type_EchoReply;_any_other_bytes_len_0..=32
+    // @harness props=C07,C03:t cfg=KW tier=q to=900 mem=4 unwind=2 covers=1 funcs=Icmpv6Packet::new_checked;Icmpv6Packet::echo_ident;Icmpv6Packet::echo_seq_no;Icmpv6Repr::parse bounds=type_EchoReply;_any_other_bytes_len_0..=32
     #[kani::proof]
     pub(crate) fn view_icmpv6_echo_reply() {
         let v = icmpv6_view::<32>(0x81);
         kani::cover!(v.parsed && v.data_len == 24, "icmpv6 echo reply with data parsed");
     }
-    // @harness props=C07,C03 cfg=KW tier=q to=900 mem=4 unwind=2 covers=1 funcs=Icmpv6Packet::new_checked;Icmpv6Packet::mcast_addr;Icmpv6Packet::num_srcs;Icmpv6Repr::parse;MldRepr::parse bounds=type_MldQuery;_any_other_bytes_len_0..=48
+    // @harness props=C07,C03:t cfg=KW tier=q to=900 mem=4 unwind=2 covers=1 funcs=Icmpv6Packet::new_checked;Icmpv6Packet::mcast_addr;Icmpv6Packet::num_srcs;Icmpv6Repr::parse;MldRepr::parse bounds=type_MldQuery;_any_other_bytes_len_0..=48
     #[kani::proof]
     pub(crate) fn view_icmpv6_mld_query() {
         let v = icmpv6_view::<48>(0x82);
         kani::cover!(v.parsed && v.data_len == 16, "mld query with one source parsed");
     }
-    // @harness props=C07,C03 cfg=KW tier=q to=900 mem=4 unwind=2 covers=1 funcs=Icmpv6Packet::new_checked;Icmpv6Packet::nr_mcast_addr_rcrds;Icmpv6Repr::parse;MldRepr::parse bounds=type_MldReport;_any_other_bytes_len_0..=32
+    // @harness props=C07,C03:t cfg=KW tier=q to=900 mem=4 unwind=2 covers=1 funcs=Icmpv6Packet::new_checked;Icmpv6Packet::nr_mcast_addr_rcrds;Icmpv6Repr::parse;MldRepr::parse bounds=type_MldReport;_any_other_bytes_len_0..=32
     #[kani::proof]
     pub(crate) fn view_icmpv6_mld_report() {
         let v = icmpv6_view::<32>(0x8f);
         kani::cover!(v.parsed && v.data_len == 20, "mld report with one record parsed");
     }
     // NDISC option loop: every option is >= 8 bytes, a zero length ends the loop with an error
-    // @harness props=C07,C03 cfg=KW tier=q to=1200 mem=8 unwind=5 opts=term covers=2 funcs=Icmpv6Packet::new_checked;Icmpv6Repr::parse;NdiscRepr::parse;NdiscOption::new_checked;NdiscOptionRepr::parse bounds=type_RouterSolicit;_any_other_bytes_len_0..=32_(<=3_options)
+    // @harness props=C07,C03:t cfg=KW tier=q to=1200 mem=8 unwind=5 opts=term covers=2 funcs=Icmpv6Packet::new_checked;Icmpv6Repr::parse;NdiscRepr::parse;NdiscOption::new_checked;NdiscOptionRepr::parse bounds=type_RouterSolicit;_any_other_bytes_len_0..=32_(<=3_options)
     #[kani::proof]
     pub(crate) fn view_icmpv6_router_solicit() {
         let v = icmpv6_view::<32>(0x85);
         kani::cover!(v.parsed && v.lladdr && v.len == 32, "router solicitation: three options incl. source link-layer address parsed");
         kani::cover!(v.checked && !v.parsed && v.len == 32, "router solicitation: malformed option rejected");
     }
-    // @harness props=C07,C03 cfg=KW tier=q to=1200 mem=8 unwind=6 opts=term covers=3 funcs=Icmpv6Packet::new_checked;Icmpv6Packet::router_lifetime;Icmpv6Packet::reachable_time;Icmpv6Packet::retrans_time;Icmpv6Repr::parse;NdiscRepr::parse;NdiscOption::new_checked;NdiscOptionRepr::parse bounds=type_RouterAdvert;_any_other_bytes_len_0..=48_(<=4_options)
+    // @harness props=C07,C03:t cfg=KW tier=q to=1200 mem=8 unwind=6 opts=term covers=3 funcs=Icmpv6Packet::new_checked;Icmpv6Packet::router_lifetime;Icmpv6Packet::reachable_time;Icmpv6Packet::retrans_time;Icmpv6Repr::parse;NdiscRepr::parse;NdiscOption::new_checked;NdiscOptionRepr::parse bounds=type_RouterAdvert;_any_other_bytes_len_0..=48_(<=4_options)
     #[kani::proof]
     pub(crate) fn view_icmpv6_router_advert() {
         let v = icmpv6_view::<48>(0x86);
@@ -551,28 +551,28 @@ mod v_wire_views {
         kani::cover!(v.parsed && v.lladdr && v.mtu, "router advertisement: link-layer and MTU options parsed");
         kani::cover!(v.checked && !v.parsed, "router advertisement: malformed option rejected");
     }
-    // @harness props=C07,C03 cfg=KW tier=t to=3600 mem=12 unwind=8 opts=term covers=2 funcs=Icmpv6Packet::new_checked;Icmpv6Repr::parse;NdiscRepr::parse;NdiscOption::new_checked;NdiscOptionRepr::parse bounds=type_RouterAdvert;_any_other_bytes_len_0..=64_(<=6_options)
+    // @harness props=C07,C03:t cfg=KW tier=t to=3600 mem=12 unwind=8 opts=term covers=2 funcs=Icmpv6Packet::new_checked;Icmpv6Repr::parse;NdiscRepr::parse;NdiscOption::new_checked;NdiscOptionRepr::parse bounds=type_RouterAdvert;_any_other_bytes_len_0..=64_(<=6_options)
     #[kani::proof]
     pub(crate) fn view_icmpv6_router_advert_t() {
         let v = icmpv6_view::<64>(0x86);
         kani::cover!(v.parsed && v.lladdr && v.mtu && v.prefix, "router advertisement: link-layer, MTU and prefix-information options parsed");
         kani::cover!(v.checked && !v.parsed, "router advertisement: malformed option rejected");
     }
-    // @harness props=C07,C03 cfg=KW tier=q to=1200 mem=8 unwind=5 opts=term covers=2 funcs=Icmpv6Packet::new_checked;Icmpv6Packet::target_addr;Icmpv6Packet::neighbor_flags;Icmpv6Repr::parse;NdiscRepr::parse;NdiscOption::new_checked;NdiscOptionRepr::parse bounds=type_NeighborSolicit;_any_other_bytes_len_0..=48_(<=3_options)
+    // @harness props=C07,C03:t cfg=KW tier=q to=1200 mem=8 unwind=5 opts=term covers=2 funcs=Icmpv6Packet::new_checked;Icmpv6Packet::target_addr;Icmpv6Packet::neighbor_flags;Icmpv6Repr::parse;NdiscRepr::parse;NdiscOption::new_checked;NdiscOptionRepr::parse bounds=type_NeighborSolicit;_any_other_bytes_len_0..=48_(<=3_options)
     #[kani::proof]
     pub(crate) fn view_icmpv6_neighbor_solicit() {
         let v = icmpv6_view::<48>(0x87);
         kani::cover!(v.parsed && v.lladdr && v.len == 48, "neighbor solicitation: options incl. source link-layer address parsed");
         kani::cover!(v.checked && !v.parsed, "neighbor solicitation: malformed option rejected");
     }
-    // @harness props=C07,C03 cfg=KW tier=q to=1200 mem=8 unwind=5 opts=term covers=2 funcs=Icmpv6Packet::new_checked;Icmpv6Packet::target_addr;Icmpv6Packet::neighbor_flags;Icmpv6Repr::parse;NdiscRepr::parse;NdiscOption::new_checked;NdiscOptionRepr::parse bounds=type_NeighborAdvert;_any_other_bytes_len_0..=48_(<=3_options)
+    // @harness props=C07,C03:t cfg=KW tier=q to=1200 mem=8 unwind=5 opts=term covers=2 funcs=Icmpv6Packet::new_checked;Icmpv6Packet::target_addr;Icmpv6Packet::neighbor_flags;Icmpv6Repr::parse;NdiscRepr::parse;NdiscOption::new_checked;NdiscOptionRepr::parse bounds=type_NeighborAdvert;_any_other_bytes_len_0..=48_(<=3_options)
     #[kani::proof]
     pub(crate) fn view_icmpv6_neighbor_advert() {
         let v = icmpv6_view::<48>(0x88);
         kani::cover!(v.parsed && v.lladdr && v.len == 48, "neighbor advertisement: options incl. target link-layer address parsed");
         kani::cover!(v.checked && !v.parsed, "neighbor advertisement: malformed option rejected");
     }
-    // @harness props=C07,C03 cfg=KW tier=q to=1200 mem=8 unwind=4 opts=term covers=2 funcs=Icmpv6Packet::new_checked;Icmpv6Packet::target_addr;Icmpv6Packet::dest_addr;Icmpv6Repr::parse;NdiscRepr::parse;NdiscOption::new_checked;NdiscOptionRepr::parse bounds=type_Redirect;_any_other_bytes_len_0..=56_(<=2_options)
+    // @harness props=C07,C03:t cfg=KW tier=q to=1200 mem=8 unwind=4 opts=term covers=2 funcs=Icmpv6Packet::new_checked;Icmpv6Packet::target_addr;Icmpv6Packet::dest_addr;Icmpv6Repr::parse;NdiscRepr::parse;NdiscOption::new_checked;NdiscOptionRepr::parse bounds=type_Redirect;_any_other_bytes_len_0..=56_(<=2_options)
     #[kani::proof]
     pub(crate) fn view_icmpv6_redirect() {
         let v = icmpv6_view::<56>(0x89);
@@ -580,7 +580,7 @@ mod v_wire_views {
         kani::cover!(v.checked && !v.parsed, "redirect: malformed option rejected");
     }
     // large enough for the Redirected Header option (8 + IPv6 header 40 + 8) next to a link-layer option
-    // @harness props=C07,C03 cfg=KW tier=t to=3600 mem=12 unwind=10 opts=term covers=2 funcs=Icmpv6Packet::new_checked;Icmpv6Repr::parse;NdiscRepr::parse;NdiscOption::new_checked;NdiscOptionRepr::parse;Ipv6Packet::new_checked bounds=type_Redirect;_any_other_bytes_len_0..=104_(<=8_options)
+    // @harness props=C07,C03:t cfg=KW tier=t to=3600 mem=12 unwind=10 opts=term covers=2 funcs=Icmpv6Packet::new_checked;Icmpv6Repr::parse;NdiscRepr::parse;NdiscOption::new_checked;NdiscOptionRepr::parse;Ipv6Packet::new_checked bounds=type_Redirect;_any_other_bytes_len_0..=104_(<=8_options)
     #[kani::proof]
     pub(crate) fn view_icmpv6_redirect_t() {
         let v = icmpv6_view::<104>(0x89);
@@ -588,7 +588,7 @@ mod v_wire_views {
         kani::cover!(v.checked && !v.parsed, "redirect: malformed option rejected");
     }
     // RPL control (not compiled in) and unassigned types: new_checked must refuse them
-    // @harness props=C07,C03 cfg=KW tier=q to=300 mem=4 unwind=4 covers=1 funcs=Icmpv6Packet::new_checked bounds=type_RplControl_or_any_unassigned_type;_any_other_bytes_len_0..=16
+    // @harness props=C07,C03:t cfg=KW tier=q to=300 mem=4 unwind=4 covers=1 funcs=Icmpv6Packet::new_checked bounds=type_RplControl_or_any_unassigned_type;_any_other_bytes_len_0..=16
     #[kani::proof]
     pub(crate) fn view_icmpv6_unknown_type() {
         const N: usize = 16;
@@ -609,7 +609,7 @@ mod v_wire_views {
     }
     // checksum accessor alone: Icmpv6Repr::parse with checksums on is `verify_checksum` followed by exactly
     // the code the harnesses above run (its one big match cannot be split per type: see icmpv6_view)
-    // @harness props=C07,C03 cfg=KW tier=q to=900 mem=6 unwind=9 covers=2 funcs=Icmpv6Packet::verify_checksum bounds=any_bytes_len_0..=24;_any_addresses
+    // @harness props=C07,C03:t cfg=KW tier=q to=900 mem=6 unwind=9 covers=2 funcs=Icmpv6Packet::verify_checksum bounds=any_bytes_len_0..=24;_any_addresses
     #[kani::proof]
     pub(crate) fn view_icmpv6_cksum() {
         const N: usize = 24;
@@ -655,13 +655,13 @@ mod v_wire_views {
             kani::cover!(matches!(r, Ok(NdiscOptionRepr::SourceLinkLayerAddr(_))) && p.data_len() == 2, "ndisc option: 16-byte link-layer address option parsed");
         }
     }
-    // @harness props=C07,C03 cfg=KW tier=q to=600 mem=4 unwind=10 covers=2 funcs=NdiscOption::new_checked;NdiscOption::link_layer_addr;NdiscOption::prefix;NdiscOption::data;NdiscOptionRepr::parse bounds=any_bytes_len_0..=40
+    // @harness props=C07,C03:t cfg=KW tier=q to=600 mem=4 unwind=10 covers=2 funcs=NdiscOption::new_checked;NdiscOption::link_layer_addr;NdiscOption::prefix;NdiscOption::data;NdiscOptionRepr::parse bounds=any_bytes_len_0..=40
     #[kani::proof]
     pub(crate) fn view_ndisc_option() {
         ndisc_option_view::<40>();
     }
     // large enough for a Redirected Header option: 8 + IPv6 header 40 + 8 payload bytes
-    // @harness props=C07,C03 cfg=KW tier=q to=600 mem=4 unwind=10 covers=1 funcs=NdiscOption::new_checked;NdiscOptionRepr::parse;Ipv6Packet::new_checked;Ipv6Repr::parse bounds=any_bytes_len_0..=64;_option_type_RedirectedHeader
+    // @harness props=C07,C03:t cfg=KW tier=q to=600 mem=4 unwind=10 covers=1 funcs=NdiscOption::new_checked;NdiscOptionRepr::parse;Ipv6Packet::new_checked;Ipv6Repr::parse bounds=any_bytes_len_0..=64;_option_type_RedirectedHeader
     #[kani::proof]
     pub(crate) fn view_ndisc_option_redirected() {
         const N: usize = 64;
@@ -678,7 +678,7 @@ mod v_wire_views {
         }
     }
 
-    // @harness props=C07,C03 cfg=KW tier=q to=300 mem=4 unwind=4 covers=1 funcs=MldAddressRecord::new_checked;MldAddressRecord::payload;MldAddressRecordRepr::parse bounds=any_bytes_len_0..=40
+    // @harness props=C07,C03:t cfg=KW tier=q to=300 mem=4 unwind=4 covers=1 funcs=MldAddressRecord::new_checked;MldAddressRecord::payload;MldAddressRecordRepr::parse bounds=any_bytes_len_0..=40
     #[kani::proof]
     pub(crate) fn view_mld_address_record() {
         const N: usize = 40;
@@ -714,18 +714,18 @@ mod v_wire_views {
             kani::cover!(r.is_ok() && pl.len() > 0 && len > p.len() as usize, "udp: parsed, payload, trailing bytes");
         }
     }
-    // @harness props=C07,C03 cfg=KW tier=q to=300 mem=4 unwind=4 covers=1 funcs=UdpPacket::new_checked;UdpPacket::payload;UdpRepr::parse bounds=any_bytes_len_0..=32
+    // @harness props=C07,C03:t cfg=KW tier=q to=300 mem=4 unwind=4 covers=1 funcs=UdpPacket::new_checked;UdpPacket::payload;UdpRepr::parse bounds=any_bytes_len_0..=32
     #[kani::proof]
     pub(crate) fn view_udp() {
         udp_view::<32>();
     }
-    // @harness props=C07,C03 cfg=KW tier=t to=900 mem=4 unwind=4 covers=1 funcs=UdpPacket::new_checked;UdpPacket::payload;UdpRepr::parse bounds=any_bytes_len_0..=96
+    // @harness props=C07,C03:t cfg=KW tier=t to=900 mem=4 unwind=4 covers=1 funcs=UdpPacket::new_checked;UdpPacket::payload;UdpRepr::parse bounds=any_bytes_len_0..=96
     #[kani::proof]
     pub(crate) fn view_udp_t() {
         udp_view::<96>();
     }
     // checksum verification path, IPv4 and IPv6 pseudo-headers
-    // @harness props=C07,C03 cfg=KW tier=q to=900 mem=6 unwind=8 covers=2 funcs=UdpPacket::verify_checksum;UdpPacket::verify_partial_checksum;UdpRepr::parse bounds=any_bytes_len_0..=16
+    // @harness props=C07,C03:t cfg=KW tier=q to=900 mem=6 unwind=8 covers=2 funcs=UdpPacket::verify_checksum;UdpPacket::verify_partial_checksum;UdpRepr::parse bounds=any_bytes_len_0..=16
     #[kani::proof]
     pub(crate) fn view_udp_cksum() {
         const N: usize = 16;
@@ -818,42 +818,42 @@ mod v_wire_views {
         kani::cover!(matches!(s, Ok(x) if x.window_scale.is_some() && x.max_segment_size.is_some()), "tcp: options summary with MSS and window scale");
         kani::cover!(s.is_err(), "tcp: options summary rejects a malformed option");
     }
-    // @harness props=C07,C03 cfg=KW tier=q to=1200 mem=8 unwind=10 opts=term covers=2 funcs=TcpPacket::new_checked;TcpPacket::options;TcpPacket::payload;TcpPacket::segment_len;TcpOption::parse;TcpRepr::parse bounds=any_bytes_len_0..=30_(<=8_option_bytes)
+    // @harness props=C07,C03:t cfg=KW tier=q to=1200 mem=8 unwind=10 opts=term covers=2 funcs=TcpPacket::new_checked;TcpPacket::options;TcpPacket::payload;TcpPacket::segment_len;TcpOption::parse;TcpRepr::parse bounds=any_bytes_len_0..=30_(<=8_option_bytes)
     #[kani::proof]
     pub(crate) fn view_tcp() {
         tcp_view::<30>();
     }
-    // @harness props=C07,C03 cfg=KW tier=t to=1800 mem=8 unwind=10 opts=term covers=2 funcs=TcpPacket::selective_ack_permitted;TcpOption::parse bounds=any_bytes_len_0..=28_(<=8_option_bytes)
+    // @harness props=C07,C03:t cfg=KW tier=t to=1800 mem=8 unwind=10 opts=term covers=2 funcs=TcpPacket::selective_ack_permitted;TcpOption::parse bounds=any_bytes_len_0..=28_(<=8_option_bytes)
     #[kani::proof]
     pub(crate) fn view_tcp_sack_permitted() {
         tcp_sack_permitted_view::<28>();
     }
-    // @harness props=C07,C03 cfg=KW tier=q to=1200 mem=8 unwind=10 opts=term covers=2 funcs=TcpPacket::selective_ack_ranges;TcpOption::parse bounds=any_bytes_len_0..=28_(<=8_option_bytes)
+    // @harness props=C07,C03:t cfg=KW tier=q to=1200 mem=8 unwind=10 opts=term covers=2 funcs=TcpPacket::selective_ack_ranges;TcpOption::parse bounds=any_bytes_len_0..=28_(<=8_option_bytes)
     #[kani::proof]
     pub(crate) fn view_tcp_sack_ranges() {
         tcp_sack_ranges_view::<28>();
     }
-    // @harness props=C07,C03 cfg=KW tier=q to=1200 mem=8 unwind=10 opts=term covers=2 funcs=TcpPacket::options_summary;TcpOption::parse bounds=any_bytes_len_0..=28_(<=8_option_bytes)
+    // @harness props=C07,C03:t cfg=KW tier=q to=1200 mem=8 unwind=10 opts=term covers=2 funcs=TcpPacket::options_summary;TcpOption::parse bounds=any_bytes_len_0..=28_(<=8_option_bytes)
     #[kani::proof]
     pub(crate) fn view_tcp_options_summary() {
         tcp_options_summary_view::<28>();
     }
-    // @harness props=C07,C03 cfg=KW tier=t to=3600 mem=16 unwind=42 opts=term covers=2 funcs=TcpPacket::new_checked;TcpPacket::options;TcpPacket::payload;TcpPacket::segment_len;TcpOption::parse;TcpRepr::parse bounds=any_bytes_len_0..=64_(all_40_option_bytes)
+    // @harness props=C07,C03:t cfg=KW tier=t to=3600 mem=16 unwind=42 opts=term covers=2 funcs=TcpPacket::new_checked;TcpPacket::options;TcpPacket::payload;TcpPacket::segment_len;TcpOption::parse;TcpRepr::parse bounds=any_bytes_len_0..=64_(all_40_option_bytes)
     #[kani::proof]
     pub(crate) fn view_tcp_t() {
         tcp_view::<64>();
     }
-    // @harness props=C07,C03 cfg=KW tier=t to=3600 mem=16 unwind=42 opts=term covers=2 funcs=TcpPacket::selective_ack_permitted;TcpOption::parse bounds=any_bytes_len_0..=60_(all_40_option_bytes)
+    // @harness props=C07,C03:t cfg=KW tier=t to=3600 mem=16 unwind=42 opts=term covers=2 funcs=TcpPacket::selective_ack_permitted;TcpOption::parse bounds=any_bytes_len_0..=60_(all_40_option_bytes)
     #[kani::proof]
     pub(crate) fn view_tcp_sack_permitted_t() {
         tcp_sack_permitted_view::<60>();
     }
-    // @harness props=C07,C03 cfg=KW tier=t to=3600 mem=16 unwind=42 opts=term covers=2 funcs=TcpPacket::selective_ack_ranges;TcpOption::parse bounds=any_bytes_len_0..=60_(all_40_option_bytes)
+    // @harness props=C07,C03:t cfg=KW tier=t to=3600 mem=16 unwind=42 opts=term covers=2 funcs=TcpPacket::selective_ack_ranges;TcpOption::parse bounds=any_bytes_len_0..=60_(all_40_option_bytes)
     #[kani::proof]
     pub(crate) fn view_tcp_sack_ranges_t() {
         tcp_sack_ranges_view::<60>();
     }
-    // @harness props=C07,C03 cfg=KW tier=t to=3600 mem=16 unwind=42 opts=term covers=2 funcs=TcpPacket::options_summary;TcpOption::parse bounds=any_bytes_len_0..=60_(all_40_option_bytes)
+    // @harness props=C07,C03:t cfg=KW tier=t to=3600 mem=16 unwind=42 opts=term covers=2 funcs=TcpPacket::options_summary;TcpOption::parse bounds=any_bytes_len_0..=60_(all_40_option_bytes)
     #[kani::proof]
     pub(crate) fn view_tcp_options_summary_t() {
         tcp_options_summary_view::<60>();
@@ -868,13 +868,13 @@ mod v_wire_views {
         kani::cover!(matches!(r, Ok((_, TcpOption::Unknown { data, .. })) if data.len() == 0), "tcp option: unknown kind, length 2");
         kani::cover!(matches!(r, Ok((rest, _)) if rest.len() + 1 == len), "tcp option: one-byte option");
     }
-    // @harness props=C07,C03 cfg=KW tier=q to=600 mem=4 unwind=6 covers=3 funcs=TcpOption::parse bounds=any_bytes_len_0..=40
+    // @harness props=C07,C03:t cfg=KW tier=q to=600 mem=4 unwind=6 covers=3 funcs=TcpOption::parse bounds=any_bytes_len_0..=40
     #[kani::proof]
     pub(crate) fn view_tcp_option() {
         tcp_option_view::<40>();
     }
     // checksum verification path
-    // @harness props=C07,C03 cfg=KW tier=q to=900 mem=6 unwind=8 covers=1 funcs=TcpPacket::verify_checksum;TcpPacket::verify_partial_checksum;TcpRepr::parse bounds=any_bytes_len_0..=22_(header_without_options_+_2_payload_bytes)
+    // @harness props=C07,C03:t cfg=KW tier=q to=900 mem=6 unwind=8 covers=1 funcs=TcpPacket::verify_checksum;TcpPacket::verify_partial_checksum;TcpRepr::parse bounds=any_bytes_len_0..=22_(header_without_options_+_2_payload_bytes)
     #[kani::proof]
     pub(crate) fn view_tcp_cksum() {
         const N: usize = 22;
@@ -939,12 +939,12 @@ mod v_wire_views {
         kani::cover!(matches!(&r, Ok(x) if x.dns_servers.is_none()), "dhcp: parsed, message type only");
     }
     // option walker: every step consumes >= 1 byte (pad) or >= 2 (option): <= T+1 iterations
-    // @harness props=C07,C03 cfg=KW tier=q to=1200 mem=8 unwind=8 opts=term covers=2 funcs=DhcpPacket::new_checked;DhcpPacket::options;DhcpPacket::client_hardware_address;DhcpPacket::flags bounds=any_bytes_len_0..=246_(240_header_+_<=6_option_bytes)
+    // @harness props=C07,C03:t cfg=KW tier=q to=1200 mem=8 unwind=8 opts=term covers=2 funcs=DhcpPacket::new_checked;DhcpPacket::options;DhcpPacket::client_hardware_address;DhcpPacket::flags bounds=any_bytes_len_0..=246_(240_header_+_<=6_option_bytes)
     #[kani::proof]
     pub(crate) fn view_dhcp() {
         dhcp_view::<246>();
     }
-    // @harness props=C07,C03 cfg=KW tier=t to=3600 mem=16 unwind=18 opts=term covers=2 funcs=DhcpPacket::new_checked;DhcpPacket::options;DhcpPacket::client_hardware_address;DhcpPacket::flags bounds=any_bytes_len_0..=256_(240_header_+_<=16_option_bytes)
+    // @harness props=C07,C03:t cfg=KW tier=t to=3600 mem=16 unwind=18 opts=term covers=2 funcs=DhcpPacket::new_checked;DhcpPacket::options;DhcpPacket::client_hardware_address;DhcpPacket::flags bounds=any_bytes_len_0..=256_(240_header_+_<=16_option_bytes)
     #[kani::proof]
     pub(crate) fn view_dhcp_t() {
         dhcp_view::<256>();
@@ -953,7 +953,7 @@ mod v_wire_views {
     // steps, 10 min; 9 bytes: no answer in 25 min), so the quick tier runs it on option lists of concrete
     // shape (kinds and lengths from a template, all values and the fixed header symbolic, optionally one
     // length octet symbolic) and the thorough tier on 5 free bytes.
-    // @harness props=C07,C03 cfg=KW tier=t to=3600 mem=12 unwind=7 opts=term,fs300 covers=2 funcs=DhcpRepr::parse;DhcpPacket::options bounds=any_bytes_len_0..=245_(240_header_+_<=5_option_bytes)
+    // @harness props=C07,C03:t cfg=KW tier=t to=3600 mem=12 unwind=7 opts=term,fs300 covers=2 funcs=DhcpRepr::parse;DhcpPacket::options bounds=any_bytes_len_0..=245_(240_header_+_<=5_option_bytes)
     #[kani::proof]
     pub(crate) fn view_dhcp_repr_t() {
         dhcp_repr_view::<245>();
@@ -995,13 +995,13 @@ mod v_wire_views {
             Err(_) => (false, false, false, false),
         }
     }
-    // @harness props=C07,C03 cfg=KW tier=q to=600 mem=6 unwind=12 opts=term,fs300 covers=1 funcs=DhcpRepr::parse;DhcpPacket::options bounds=option_list_shape_53/1,1/4,3/4,51/4,58/4,59/4,54/4,6/8,pad,end;_all_values_and_header_symbolic
+    // @harness props=C07,C03:t cfg=KW tier=q to=600 mem=6 unwind=12 opts=term,fs300 covers=1 funcs=DhcpRepr::parse;DhcpPacket::options bounds=option_list_shape_53/1,1/4,3/4,51/4,58/4,59/4,54/4,6/8,pad,end;_all_values_and_header_symbolic
     #[kani::proof]
     pub(crate) fn view_dhcp_repr_shape_server() {
         let r = dhcp_shape_view::<8>([(53, 1), (1, 4), (3, 4), (51, 4), (58, 4), (59, 4), (54, 4), (6, 8)], (99, 0), 0);
         kani::cover!(r.0 && r.1 && r.2, "dhcp: server-shaped option list parsed");
     }
-    // @harness props=C07,C03 cfg=KW tier=q to=600 mem=6 unwind=12 opts=term,fs300 covers=1 funcs=DhcpRepr::parse;DhcpPacket::options bounds=option_list_shape_53/1,61/7,50/4,57/2,55/3,pad,end;_all_values_and_header_symbolic
+    // @harness props=C07,C03:t cfg=KW tier=q to=600 mem=6 unwind=12 opts=term,fs300 covers=1 funcs=DhcpRepr::parse;DhcpPacket::options bounds=option_list_shape_53/1,61/7,50/4,57/2,55/3,pad,end;_all_values_and_header_symbolic
     #[kani::proof]
     pub(crate) fn view_dhcp_repr_shape_client() {
         let r = dhcp_shape_view::<5>([(53, 1), (61, 7), (50, 4), (57, 2), (55, 3)], (99, 0), 0);
@@ -1011,7 +1011,7 @@ mod v_wire_views {
     // the remainder free-form: neither symbolic nor case-split lengths finished within 30 min; that case
     // is covered only up to 5 free option bytes by view_dhcp_repr_t and 6 by view_dhcp.)
     // truncated message: the buffer ends inside the last option
-    // @harness props=C07,C03 cfg=KW tier=q to=600 mem=6 unwind=12 opts=term,fs300 covers=1 funcs=DhcpRepr::parse;DhcpPacket::options bounds=option_list_shape_53/1,51/4,6/8_cut_5_bytes_short
+    // @harness props=C07,C03:t cfg=KW tier=q to=600 mem=6 unwind=12 opts=term,fs300 covers=1 funcs=DhcpRepr::parse;DhcpPacket::options bounds=option_list_shape_53/1,51/4,6/8_cut_5_bytes_short
     #[kani::proof]
     pub(crate) fn view_dhcp_repr_shape_truncated() {
         let r = dhcp_shape_view::<3>([(53, 1), (51, 4), (6, 8)], (99, 0), 5);
@@ -1088,12 +1088,12 @@ mod v_wire_views {
         }
     }
     // name walker: >= 1 byte per step: <= N-12 iterations (+1)
-    // @harness props=C07,C03 cfg=KW tier=q to=1200 mem=8 unwind=18 opts=term covers=2 funcs=DnsPacket::new_checked;DnsPacket::payload;DnsQuestion::parse;DnsRecord::parse;DnsRecordData::parse bounds=any_bytes_len_0..=28_(12_header_+_<=16;_question_+_<=1_record)
+    // @harness props=C07,C03:t cfg=KW tier=q to=1200 mem=8 unwind=18 opts=term covers=2 funcs=DnsPacket::new_checked;DnsPacket::payload;DnsQuestion::parse;DnsRecord::parse;DnsRecordData::parse bounds=any_bytes_len_0..=28_(12_header_+_<=16;_question_+_<=1_record)
     #[kani::proof]
     pub(crate) fn view_dns() {
         dns_view::<28>();
     }
-    // @harness props=C07,C03 cfg=KW tier=t to=3600 mem=16 unwind=42 opts=term covers=2 funcs=DnsPacket::new_checked;DnsPacket::payload;DnsQuestion::parse;DnsRecord::parse;DnsRecordData::parse bounds=any_bytes_len_0..=52_(12_header_+_<=40;_question_+_<=3_records)
+    // @harness props=C07,C03:t cfg=KW tier=t to=3600 mem=16 unwind=42 opts=term covers=2 funcs=DnsPacket::new_checked;DnsPacket::payload;DnsQuestion::parse;DnsRecord::parse;DnsRecordData::parse bounds=any_bytes_len_0..=52_(12_header_+_<=40;_question_+_<=3_records)
     #[kani::proof]
     pub(crate) fn view_dns_t() {
         dns_view::<52>();
@@ -1128,18 +1128,18 @@ mod v_wire_views {
         kani::cover!(matches!(r, Some(Err(_))) && s + 1 < e && b[s] == 0xc0 && b[s + 1] as usize == s && q > s, "dns name step: pointer to itself rejected");
         kani::cover!(r.is_none(), "dns name step: end of name");
     }
-    // @harness props=C07,C03 cfg=KW tier=q to=900 mem=6 unwind=19 opts=term covers=3 funcs=DnsPacket::parse_name bounds=any_bytes_len_0..=32;_one_next()_from_any_iterator_state_(bytes=b[s..e],_packet=b[..q])
+    // @harness props=C07,C03:t cfg=KW tier=q to=900 mem=6 unwind=19 opts=term covers=3 funcs=DnsPacket::parse_name bounds=any_bytes_len_0..=32;_one_next()_from_any_iterator_state_(bytes=b[s..e],_packet=b[..q])
     #[kani::proof]
     pub(crate) fn view_dns_name_step() {
         dns_name_step_view::<32>();
     }
-    // @harness props=C07,C03 cfg=KW tier=t to=3600 mem=12 unwind=35 opts=term covers=3 funcs=DnsPacket::parse_name bounds=any_bytes_len_0..=64;_one_next()_from_any_iterator_state_(bytes=b[s..e],_packet=b[..q])
+    // @harness props=C07,C03:t cfg=KW tier=t to=3600 mem=12 unwind=35 opts=term covers=3 funcs=DnsPacket::parse_name bounds=any_bytes_len_0..=64;_one_next()_from_any_iterator_state_(bytes=b[s..e],_packet=b[..q])
     #[kani::proof]
     pub(crate) fn view_dns_name_step_t() {
         dns_name_step_view::<64>();
     }
     // The first three steps of a real iteration, chained (state handed over by the iterator itself).
-    // @harness props=C07,C03 cfg=KW tier=t to=1800 mem=8 unwind=11 opts=term covers=1 funcs=DnsPacket::parse_name bounds=any_bytes_len_0..=16;_name_at_any_offset;_first_3_steps
+    // @harness props=C07,C03:t cfg=KW tier=t to=1800 mem=8 unwind=11 opts=term covers=1 funcs=DnsPacket::parse_name bounds=any_bytes_len_0..=16;_name_at_any_offset;_first_3_steps
     #[kani::proof]
     pub(crate) fn view_dns_name_three_steps() {
         const N: usize = 16;
@@ -1195,7 +1195,7 @@ mod v_wire_views {
         kani::cover!(matches!(&r, Ok(x) if matches!(x.dst_addr, Some(Ieee802154Address::Extended(_))) && matches!(x.src_addr, Some(Ieee802154Address::Short(_)))) && matches!(pl, Some(d) if d.len() > 0), "802.15.4: data frame, extended dst, short src, payload");
         kani::cover!(r.is_ok() && p.security_enabled(), "802.15.4: secured frame parsed");
     }
-    // @harness props=C07,C03 cfg=KW tier=q to=900 mem=6 unwind=10 covers=2 funcs=Ieee802154Frame::new_checked;Ieee802154Frame::dst_addr;Ieee802154Frame::src_addr;Ieee802154Frame::mac_header;Ieee802154Frame::payload;Ieee802154Repr::parse bounds=any_bytes_len_0..=40
+    // @harness props=C07,C03:t cfg=KW tier=q to=900 mem=6 unwind=10 covers=2 funcs=Ieee802154Frame::new_checked;Ieee802154Frame::dst_addr;Ieee802154Frame::src_addr;Ieee802154Frame::mac_header;Ieee802154Frame::payload;Ieee802154Repr::parse bounds=any_bytes_len_0..=40
     #[kani::proof]
     pub(crate) fn view_ieee802154() {
         ieee802154_view::<40>();
@@ -1204,7 +1204,7 @@ mod v_wire_views {
     // The auxiliary-security-header accessors, only on frames whose Security Enabled bit is set
     // (`check_len` accounts for that header exactly when the bit is set).  Three harnesses, so that a
     // failure names the accessor group: control byte + frame counter / key identifier / MIC.
-    // @harness props=C07,C03 cfg=KW tier=q to=900 mem=6 unwind=10 covers=1 funcs=Ieee802154Frame::security_level;Ieee802154Frame::key_identifier_mode;Ieee802154Frame::frame_counter_suppressed;Ieee802154Frame::frame_counter bounds=any_bytes_len_0..=40;_security_enabled_frames
+    // @harness props=C07,C03:t cfg=KW tier=q to=900 mem=6 unwind=10 covers=1 funcs=Ieee802154Frame::security_level;Ieee802154Frame::key_identifier_mode;Ieee802154Frame::frame_counter_suppressed;Ieee802154Frame::frame_counter bounds=any_bytes_len_0..=40;_security_enabled_frames
     #[kani::proof]
     pub(crate) fn view_ieee802154_sec_control() {
         const N: usize = 40;
@@ -1223,7 +1223,7 @@ mod v_wire_views {
             kani::cover!(c.is_some() && p.key_identifier_mode() == 3, "802.15.4: frame counter present, 9-byte key identifier");
         }
     }
-    // @harness props=C07,C03 cfg=KW tier=q to=900 mem=6 unwind=10 covers=1 funcs=Ieee802154Frame::key_source;Ieee802154Frame::key_index;Ieee802154Frame::key_identifier bounds=any_bytes_len_0..=40;_security_enabled_frames
+    // @harness props=C07,C03:t cfg=KW tier=q to=900 mem=6 unwind=10 covers=1 funcs=Ieee802154Frame::key_source;Ieee802154Frame::key_index;Ieee802154Frame::key_identifier bounds=any_bytes_len_0..=40;_security_enabled_frames
     #[kani::proof]
     pub(crate) fn view_ieee802154_sec_key() {
         const N: usize = 40;
@@ -1240,7 +1240,7 @@ mod v_wire_views {
             kani::cover!(matches!(s, Some(x) if x.len() == 8) && i.is_some(), "802.15.4: 8-byte key source and key index read");
         }
     }
-    // @harness props=C07,C03 cfg=KW tier=q to=900 mem=6 unwind=10 covers=1 funcs=Ieee802154Frame::message_integrity_code bounds=any_bytes_len_0..=40;_security_enabled_frames
+    // @harness props=C07,C03:t cfg=KW tier=q to=900 mem=6 unwind=10 covers=1 funcs=Ieee802154Frame::message_integrity_code bounds=any_bytes_len_0..=40;_security_enabled_frames
     #[kani::proof]
     pub(crate) fn view_ieee802154_sec_mic() {
         const N: usize = 40;
@@ -1259,7 +1259,7 @@ mod v_wire_views {
 
     // ------------------------------------------------------------------ 6LoWPAN
 
-    // @harness props=C07,C03 cfg=KW tier=q to=300 mem=4 unwind=4 covers=2 funcs=SixlowpanPacket::dispatch;SixlowpanNhcPacket::dispatch;SixlowpanFragPacket::new_checked;SixlowpanFragPacket::payload;SixlowpanFragRepr::parse bounds=any_bytes_len_0..=12
+    // @harness props=C07,C03:t cfg=KW tier=q to=300 mem=4 unwind=4 covers=2 funcs=SixlowpanPacket::dispatch;SixlowpanNhcPacket::dispatch;SixlowpanFragPacket::new_checked;SixlowpanFragPacket::payload;SixlowpanFragRepr::parse bounds=any_bytes_len_0..=12
     #[kani::proof]
     pub(crate) fn view_sixlowpan_frag() {
         const N: usize = 12;
@@ -1309,13 +1309,13 @@ mod v_wire_views {
         kani::cover!(r.is_ok() && p.header_len() == 41, "iphc: everything carried in-line parsed");
         kani::cover!(r.is_ok() && p.src_context_id().is_some() && pl.len() > 0, "iphc: context-based address resolved");
     }
-    // @harness props=C07,C03 cfg=KW tier=q to=900 mem=6 unwind=18 covers=2 funcs=SixlowpanIphcPacket::new_checked;SixlowpanIphcPacket::src_addr;SixlowpanIphcPacket::dst_addr;SixlowpanIphcPacket::payload;SixlowpanIphcRepr::parse;UnresolvedAddress::resolve bounds=any_bytes_len_0..=44;_any_link-layer_addresses;_0..=2_address_contexts
+    // @harness props=C07,C03:t cfg=KW tier=q to=900 mem=6 unwind=18 covers=2 funcs=SixlowpanIphcPacket::new_checked;SixlowpanIphcPacket::src_addr;SixlowpanIphcPacket::dst_addr;SixlowpanIphcPacket::payload;SixlowpanIphcRepr::parse;UnresolvedAddress::resolve bounds=any_bytes_len_0..=44;_any_link-layer_addresses;_0..=2_address_contexts
     #[kani::proof]
     pub(crate) fn view_sixlowpan_iphc() {
         sixlowpan_iphc_view::<44>();
     }
 
-    // @harness props=C07,C03 cfg=KW tier=q to=300 mem=4 unwind=4 covers=1 funcs=SixlowpanExtHeaderPacket::new_checked;SixlowpanExtHeaderPacket::extension_header_id;SixlowpanExtHeaderPacket::length;SixlowpanExtHeaderPacket::next_header;SixlowpanExtHeaderRepr::parse bounds=any_bytes_len_0..=16
+    // @harness props=C07,C03:t cfg=KW tier=q to=300 mem=4 unwind=4 covers=1 funcs=SixlowpanExtHeaderPacket::new_checked;SixlowpanExtHeaderPacket::extension_header_id;SixlowpanExtHeaderPacket::length;SixlowpanExtHeaderPacket::next_header;SixlowpanExtHeaderRepr::parse bounds=any_bytes_len_0..=16
     #[kani::proof]
     pub(crate) fn view_sixlowpan_ext_header() {
         const N: usize = 16;
@@ -1331,7 +1331,7 @@ mod v_wire_views {
         }
     }
     // payload() apart from the other accessors, so that a failure names it
-    // @harness props=C07,C03 cfg=KW tier=q to=300 mem=4 unwind=4 covers=1 funcs=SixlowpanExtHeaderPacket::new_checked;SixlowpanExtHeaderPacket::payload bounds=any_bytes_len_0..=16
+    // @harness props=C07,C03:t cfg=KW tier=q to=300 mem=4 unwind=4 covers=1 funcs=SixlowpanExtHeaderPacket::new_checked;SixlowpanExtHeaderPacket::payload bounds=any_bytes_len_0..=16
     #[kani::proof]
     pub(crate) fn view_sixlowpan_ext_header_payload() {
         const N: usize = 16;
@@ -1344,7 +1344,7 @@ mod v_wire_views {
         }
     }
 
-    // @harness props=C07,C03 cfg=KW tier=q to=600 mem=4 unwind=10 covers=2 funcs=SixlowpanUdpNhcPacket::new_checked;SixlowpanUdpNhcPacket::src_port;SixlowpanUdpNhcPacket::dst_port;SixlowpanUdpNhcPacket::checksum;SixlowpanUdpNhcPacket::payload;SixlowpanUdpNhcRepr::parse bounds=any_bytes_len_0..=16
+    // @harness props=C07,C03:t cfg=KW tier=q to=600 mem=4 unwind=10 covers=2 funcs=SixlowpanUdpNhcPacket::new_checked;SixlowpanUdpNhcPacket::src_port;SixlowpanUdpNhcPacket::dst_port;SixlowpanUdpNhcPacket::checksum;SixlowpanUdpNhcPacket::payload;SixlowpanUdpNhcRepr::parse bounds=any_bytes_len_0..=16
     #[kani::proof]
     pub(crate) fn view_sixlowpan_udp_nhc() {
         const N: usize = 16;
